@@ -21,7 +21,7 @@
 From AV Require Import Base.Bytes Base.Outcome Hash.HashModel Tree.Heap Tree.Ops Tree.Script.
 From AV Require Import Tree.Index Tree.IndexProofs Tree.Refs Tree.RefsProofsReport Tree.RefsProofsOps Tree.IndexProofsTiny.
 From AV Require Import Tree.Inv Spec.SpecReal Tree.CheckFn Tree.IndexProofsClosed Tree.IndexProofsTinyMove.
-From AV Require Import Tree.RefsAll Tree.IndexProofsNodeInv Tree.IndexProofsAll Tree.Script2 Tree.IndexProofsOp2 Tree.SortProofsNames Tree.IndexProofsSortReal.
+From AV Require Import Tree.RefsAll Tree.IndexProofsNodeInv Tree.IndexProofsAll Tree.Script2 Tree.IndexProofsOp2 Tree.SortProofsNames Tree.IndexProofsSortReal Tree.RefsAllB Tree.IndexProofsAllB.
 Import Tiny.
 Open Scope list_scope.
 Open Scope N_scope.
@@ -163,6 +163,28 @@ Theorem C05_history_all_real :
   run_ops RT tab_el tab_en (check_fn_model dfas) LATEST root_attrs l empty_world = Val w' ->
   TreeFacts w' /\ Inv04 RT (check_fn_model dfas) w' /\ Inv05 RT w'.
 Proof. exact C04_C05_history_all_rt. Qed.
+
+(* the same with the smaller class Known05b (copies: no duplicate check on the walk of the copy; Properties/C04.v C04_copy_walk_nodup) *)
+Theorem C45_inv_b :
+  forall (T : tables) (tab_el tab_en : nametab) (check_fn : N -> list N -> res bool) (LATEST : N)
+         (root_attrs : list (N * cdata)),
+  TablesOK T check_fn ->
+  forall (w : world) (o : op) (r : out value) (w' : world),
+  TreeFacts w -> Inv04 T check_fn w -> Inv05 T w -> RX T w ->
+  Known04a T LATEST w o = false -> Known05b T tab_el tab_en check_fn LATEST root_attrs w o = false ->
+  run_op T tab_el tab_en check_fn LATEST root_attrs o w = Val (r, w') -> Inv04 T check_fn w' /\ Inv05 T w'.
+Proof. exact C45_inv_allb. Qed.
+
+Theorem C05_history_allb :
+  forall (T : tables) (tab_el tab_en : nametab) (check_fn : N -> list N -> res bool) (LATEST : N)
+         (root_attrs : list (N * cdata)),
+  TablesOK T check_fn ->
+  (forall ty, et_new T (autosar_element T) = Val ty -> plainty T ty) ->
+  forall (l : list op) (w' : world),
+  clean45b T tab_el tab_en check_fn LATEST root_attrs l empty_world = true ->
+  run_ops T tab_el tab_en check_fn LATEST root_attrs l empty_world = Val w' ->
+  TreeFacts w' /\ Inv04 T check_fn w' /\ Inv05 T w'.
+Proof. exact C04_C05_history_allb. Qed.
 
 (* ---------- the extended alphabet op2 (Tree/Script2.v), as far as it is cheap: the 26 constructors, set_version,
    check_version_compatibility, serialize (file / element).  Pending45_2: sort (element / model), duplicate, load_buffer. *)
